@@ -54,7 +54,34 @@ def gen(rng, tier):
     cols = all_modelled_columns()
     if lc:
         cols = [c for c in cols if 'L2' in c] + LC_COLS
-    fields = 'all' if rng.random() < 0.5 else rng.sample(cols, rng.randrange(1, 9))
+    r = rng.random()
+    if r < 0.4:
+        fields = 'all'
+    elif r < 0.65:
+        fields = rng.sample(cols, rng.randrange(1, 9))
+    else:
+        # ratio columns together with the column they are relative to, in a seeded order: a loader that
+        # touches the shared raw reference column shows up only for particular request orders
+        fields = []
+        for _ in range(rng.randrange(1, 4)):
+            com = rng.choice(['_com', '_L2com'])
+            kind = rng.choice(['r', 'sigmav'])
+            if kind == 'r':
+                ratio = rng.choice(['r10', 'r25', 'r33', 'r50', 'r67', 'r75', 'r90', 'r95', 'r98', 'rvcirc_max', 'sigmar']) + com
+                ref = 'r100' + com
+            else:
+                ratio = 'sigmav' + rng.choice(['Min', 'Mid', 'Maj', 'rad', 'tan']) + com
+                ref = 'sigmav3d' + com
+            pair = [ratio, ref] if rng.random() < 0.5 else [ref, ratio]
+            for f in pair:
+                if f in cols and f not in fields:
+                    fields.insert(rng.randrange(len(fields) + 1), f)
+        if rng.random() < 0.5:
+            extra = rng.choice(cols)
+            if extra not in fields:
+                fields.insert(rng.randrange(len(fields) + 1), extra)
+        if not fields:
+            fields = rng.sample(cols, rng.randrange(1, 5))     # an empty request is outside the property
     return {'world': world, 'knobs': C.gen_knobs(rng), 'cleaned': bool(world['cleaned'] and rng.random() < 0.5),
             'fields': fields}
 
